@@ -423,3 +423,10 @@ Proof.
       rewrite IH by exact Hr. rewrite app_assoc. reflexivity.
     + rewrite IH by exact Hr. reflexivity.
 Qed.
+
+Theorem ptr_bool_fit_proof : (forall p, fits kBytes_ptr (fmt_ptr p)) /\ (forall b, fits kBytes_bool (fmt_bool b)).
+Proof. split; [exact fmt_ptr_fits_proof|exact fmt_bool_fits_proof]. Qed.
+
+Theorem double_float_tight_proof :
+  (forall d, dvalue_ok_double d = true -> fits 26 (fmt_double d)) /\ (forall d, dvalue_ok_float d = true -> fits 23 (fmt_double d)).
+Proof. split; [exact fmt_double_tight|exact fmt_float_tight]. Qed.
